@@ -530,6 +530,12 @@ class Interp:
     def instantiate(self, cls, args, kwargs):
         model = self.registry.models.get(cls.qualname) if self.registry else None
         if model is not None and cls.qualname not in self.registry.inline_now:
+            init0 = cls.find('__init__')
+            if init0 is not None and getattr(init0, 'node', None) is not None:
+                # a constructor contract sees the call independently of the call style (see positional_form)
+                a2, k2 = self.positional_form(init0.node, [None] + list(args), kwargs)
+                k2._pos.pop(next(iter(k2._pos), None), None) if getattr(k2, '_pos', None) else None
+                return model(self, a2[1:], k2)
             return model(self, list(args), kwargs)
         if cls.is_subclass_of('Exception') or cls.is_subclass_of('BaseException'):
             return ExcVal(cls.name, tuple(args))
